@@ -127,7 +127,8 @@ pub fn cases(ctx: &Ctx) -> Vec<Case> {
             let layers = LAYER_COMBOS[i % 4];
             let nfiles = 2 + rng.usize_below(if ctx.quick() { 3 } else { 8 });
             let level = *rng.pick(&[0u32, 1, 5]);
-            let p = random_program(&mut rng, layers, level, nfiles, 3, &sizes, i % 4 == 0);
+            // (flushes in one program in four, for every layer combination: (i / 4) is independent of i % 4)
+            let p = random_program(&mut rng, layers, level, nfiles, 3, &sizes, (i / 4) % 4 == 0);
             push(p, &mut rng);
         }
         // (g) thorough: 64-file interleavings and multi-block archives
